@@ -6,6 +6,7 @@ import (
 	"fmt"
 	"net"
 	"strings"
+	"sync"
 	"testing"
 	"time"
 
@@ -185,8 +186,73 @@ func TestSessionIsolation(t *testing.T) {
 			w.all = append(w.all, ns)
 			w.logf("open #%d from addr%d -> id %d", ns.idx, a, ns.client.userId)
 		}
-		open(rt)
-		open(rt)
+		// openMany: several clients perform their version handshake at the same instant (the DNS server handles
+		// every query in its own goroutine)
+		openMany := func(rt *rapid.T) {
+			room := 5 - len(w.liveOnes())
+			if room < 2 {
+				rt.Skip("enough sessions")
+			}
+			k := rapid.IntRange(2, room).Draw(rt, "k")
+			addrs := make([]int, k)
+			for i := range addrs {
+				addrs[i] = rapid.IntRange(0, len(addrPool)-1).Draw(rt, "addr")
+			}
+			res := make([]*session, k)
+			errs := make([]error, k)
+			start := make(chan struct{})
+			var wg sync.WaitGroup
+			for i := 0; i < k; i++ {
+				wg.Add(1)
+				go func(i int) {
+					defer wg.Done()
+					<-start
+					res[i], errs[i] = openSessionNoAccept(w.ss, w.srv, addrPool[addrs[i]])
+				}(i)
+			}
+			close(start)
+			wg.Wait()
+			w.logf("openMany %d from addrs %v", k, addrs)
+			byId := map[uint16]*userConnection{}
+			for i := 0; i < k; i++ {
+				c, err := w.srv.Accept()
+				if err != nil {
+					fail("open-failed", "accept after concurrent handshakes: "+err.Error())
+				}
+				u := c.(*userConnection)
+				if _, dup := byId[u.UserId]; dup {
+					fail("duplicate-session-id", fmt.Sprintf("two of %d concurrent handshakes were given identifier %d", k, u.UserId))
+				}
+				byId[u.UserId] = u
+			}
+			for i := 0; i < k; i++ {
+				if errs[i] != nil {
+					fail("open-failed", fmt.Sprintf("concurrent handshake %d failed: %v", i, errs[i]))
+				}
+				for _, o := range w.liveOnes() {
+					if o.client.userId == res[i].client.userId {
+						fail("duplicate-session-id", fmt.Sprintf("a concurrent handshake was given identifier %d which live session #%d holds", res[i].client.userId, o.idx))
+					}
+				}
+				u, ok := byId[res[i].client.userId]
+				if !ok {
+					fail("duplicate-session-id", fmt.Sprintf("client %d was told identifier %d but the server has no such new session", i, res[i].client.userId))
+				}
+				res[i].user = u
+				if err := res[i].finishSetup(); err != nil {
+					fail("open-failed", "session setup after concurrent handshake: "+err.Error())
+				}
+				ns := &sess{session: res[i], idx: len(w.all), addr: addrs[i], live: true, tag: uint64(1000 * (len(w.all) + 1))}
+				w.all = append(w.all, ns)
+			}
+			checkAllLive("after concurrent handshakes")
+		}
+		if rapid.Bool().Draw(rt, "concurrentStart") {
+			openMany(rt)
+		} else {
+			open(rt)
+			open(rt)
+		}
 		pickLive := func(rt *rapid.T) *sess {
 			l := w.liveOnes()
 			if len(l) == 0 {
@@ -195,7 +261,8 @@ func TestSessionIsolation(t *testing.T) {
 			return l[rapid.IntRange(0, len(l)-1).Draw(rt, "live")]
 		}
 		rt.Repeat(map[string]func(*rapid.T){
-			"open": open,
+			"open":     open,
+			"openMany": openMany,
 			"transfer": func(rt *rapid.T) {
 				s := pickLive(rt)
 				n := rapid.IntRange(1, 700).Draw(rt, "n")
